@@ -78,6 +78,13 @@ def val(n):
     return hashlib.sha1(b"c16-%d" % n).hexdigest()
 
 
+FAULT_COUNTERS = {
+    "probe:stale_lock_refused": "stale lock file left by a crashed writer",
+    "probe:handle_switch_after_write": "second process (another handle with "
+                                       "its own caches)",
+}
+
+
 def budget(tier):
     return 4000 if tier == "quick" else 250000
 
